@@ -4,6 +4,7 @@ import (
 	"fmt"
 	"go/token"
 	"go/types"
+	"hash/crc64"
 
 	"golang.org/x/tools/go/ssa"
 )
@@ -66,6 +67,21 @@ func (in *Interp) initStubs2() {
 		k := map[types.BasicKind]uint64{types.Bool: 1, types.Int: 2, types.Int8: 3, types.Int16: 4, types.Int32: 5, types.Int64: 6,
 			types.Uint: 7, types.Uint8: 8, types.Uint16: 9, types.Uint32: 10, types.Uint64: 11, types.Uintptr: 12, types.String: 24}[b.Kind()]
 		return tb.Const(k, 64), stDone
+	}
+	s["hash/crc64.update"] = func(in *Interp, th *Thread, fn *ssa.Function, a []Value) (Value, stubStatus) {
+		crc := in.intTerm(a[0])
+		bs := in.sliceBytes(a[2].(SliceV))
+		if crc.op != OpConst {
+			panic(in.unsupported("crc64 update with symbolic state"))
+		}
+		conc := make([]byte, len(bs))
+		for i, b := range bs {
+			if b.op != OpConst {
+				panic(in.unsupported("crc64 update over symbolic bytes"))
+			}
+			conc[i] = byte(b.val)
+		}
+		return tb.Const(crc64.Update(crc.val, crcISO, conc), 64), stDone
 	}
 	s["math/rand.NewSource"] = func(in *Interp, th *Thread, fn *ssa.Function, a []Value) (Value, stubStatus) {
 		return IfaceV{}, stDone
